@@ -134,7 +134,10 @@ def run(ctx):
                 dec_lines.append("dops %s 100000 W%s H %s M" % (dt, out_bytes, " ".join(["M", "B"] * len(n_acc))))
                 dec_info.append((line, n_acc, out_bytes, dt))
     dans = C.harness(dec_lines, timeout=1200)
-    mans = C.driver(["dec %s %s" % (i[3], i[2]) for i in dec_info]) if ctx.model_ok else [None] * len(dec_info)
+    # the model decodes the small files only (a 2^24-1 chunk is an implementation-only case)
+    small = [k for k, i in enumerate(dec_info) if len(i[2]) < 400000]
+    mres = dict(zip(small, C.driver(["dec %s %s" % (dec_info[k][3], dec_info[k][2]) for k in small], timeout=600))) if ctx.model_ok else {}
+    mans = [mres.get(k) for k in range(len(dec_info))]
     for (line, chunks, hx, dt), a, m in zip(dec_info, dans, mans):
         toks = [b for b, _ in D.split_tokens(a)]
         bodies = [t for t in toks if t.startswith("ok vals=")]
